@@ -447,3 +447,13 @@ func (s *slowDeleteStore) Delete(key []byte) error {
 	time.Sleep(s.delay)
 	return s.rtStore.Delete(key)
 }
+
+// TestC10Admin: the admin histories on stores whose calls are slow, judged for C10 -- a store
+// that takes its time over a delete or a write must not make pike answer with what was purged
+func TestC10Admin(t *testing.T) {
+	vstat.Run(t, "C10", "netw", func(t *rapid.T) c18Scenario {
+		sc := genC18e2e(t)
+		sc.Store = true
+		return sc
+	}, execC18e2e)
+}
